@@ -2484,6 +2484,18 @@ def w_print( ctx ):
                 res.bad( src, raw[0], '%s.%s computes with a raw slice bound ( %s )' % ( c.name, f.name, norm_text( raw[0] )), 'for the bound-less slice of Set Attribute Single ( att[:] = values ) the bound is None: the arithmetic raises after the values were stored - the request is answered 0x08, the tag is overwritten' )
             elif f.name in ( '__setitem__', '__getitem__' ) or any( isinstance( o, ast.Attribute ) and o.attr in ( 'start', 'stop' ) for o in ast.walk( f )):
                 res.ok( src, f, '%s.%s: no arithmetic on raw slice bounds' % ( c.name, f.name ))
+            # in __setitem__ nothing that may fail FOLLOWS the store: a print that raises ( stdout closed, a value the terminal's encoding cannot
+            # show ) after the values were stored answers the write with a failure status although the tag has changed
+            if f.name == '__setitem__':
+                stores = [ k_ for k_, st_ in enumerate( f.body ) if any( isinstance( c_, ast.Call ) and isinstance( c_.func, ast.Attribute ) and c_.func.attr == '__setitem__' for c_ in ast.walk( st_ )) ]
+                if not stores:
+                    raise AnalysisError( '%s.__setitem__: the call of the wrapped __setitem__ not found' % c.name )
+                late = [ st_ for st_ in f.body[stores[-1] + 1:] if not isinstance( st_, ast.Try ) and any( isinstance( c_, ast.Call ) and call_name( c_ ) == 'print' for c_ in ast.walk( st_ )) ]
+                if late:
+                    res.bad( src, late[0], '%s.__setitem__ prints after the values were stored' % c.name,
+                             'a print that raises ( broken pipe, UnicodeEncodeError on an ASCII stdout ) fails the request AFTER the store: the write is answered 0xFF/0x2105, the tag holds the new values - a refused request has changed a tag' )
+                else:
+                    res.ok( src, f, '%s.__setitem__: what may fail ( the print ) precedes the store' % c.name )
             # what is printed is formatted for EVERY value a tag can hold - numbers, booleans, texts - and every key: the argument of each print
             # is evaluated on 5 values x 3 keys; a conversion that raises for one of them ( '%g' % 'text' ) fails the read or the write it decorates
             if f.name in ( '__setitem__', '__getitem__' ):
@@ -3523,6 +3535,20 @@ def t_symbol( ctx ):
         res.ok( src, re_, 'resolve_element: the path\'s element segment, default element 0' )
     else:
         res.bad( src, re_, 'resolve_element', 'the element index is the path\'s element segment, defaulting to 0' )
+    # slot '0' of an Object's attributes is the Object itself ( lookup( class, instance ) returns directory['class.instance.0'] ): nothing
+    # else is ever stored there.  TCPIP kept its class-level Revision in '0': lookup( 0xF5, 0 ) returned an Attribute, every request to the
+    # class object raised, and a tag configured on a new instance of that class made setup() fail for every request of every session
+    zero = [ a_ for a_ in ast.walk( src.tree ) if isinstance( a_, ast.Assign ) and any( isinstance( t_, ast.Subscript ) and isinstance( t_.value, ast.Attribute ) and t_.value.attr == 'attribute'
+                                                                                         and try_fold( t_.slice ) in ( '0', 0 ) for t_ in a_.targets ) ]
+    if not zero:
+        raise AnalysisError( "device.py: no store into <object>.attribute['0'] found" )
+    for a_ in zero:
+        tg = [ t_ for t_ in a_.targets if isinstance( t_, ast.Subscript ) ][0]
+        if dotted( a_.value ) == dotted( tg.value.value ):
+            res.ok( src, a_, "attribute['0'] = the Object itself" )
+        else:
+            res.bad( src, a_, "%s: attribute['0'] = %s" % ( src.qualname_of( a_ ), norm_text( a_.value )[:50] ),
+                     "slot '0' is where the directory finds the Object: overwritten, lookup( class, instance ) returns an Attribute - requests to that object raise, and a tag configured on another instance of the class fails every request of every session" )
     # the name a configured tag is registered under is the name given: logix.setup() only transcodes it ( UTF-8 text -> ISO-8859-1 octets ->
     # text ), decided by value on names holding ISO-8859-1 symbols.  Anything that rewrites characters ( a compatibility normalisation turns
     # 'm³' into 'm3', 'º' into 'o' ) registers the tag under a name no request spells: every read and write of it is answered 0x05
